@@ -148,3 +148,67 @@ def rule_pick(w, candidates):
 
 def vt(w):
     return round(w.now - BASE_TIME, 3)
+
+
+def _mask(value, keys):
+    if isinstance(value, dict):
+        return {k: ('*' if k in keys else _mask(v, keys)) for k, v in value.items()}
+    if isinstance(value, list):
+        return [_mask(v, keys) for v in value]
+    return value
+
+
+def status_snapshot(w, nick):
+    """ Everything an instance reports through its status XML-RPCs; only the stamps taken at the time of the call
+    are masked. Used by the non-interference oracles (C13). """
+    inst = w.instances[nick]
+    snap = {}
+    stamped = ('now_monotonic',)
+    for method in ('get_supvisors_state', 'get_all_instances_state_modes', 'get_all_applications_info',
+                   'get_all_process_info'):
+        try:
+            snap[method] = _mask(peek(w, nick, 'supvisors.' + method), stamped)
+        except Fault as exc:
+            snap[method] = f'fault {exc.code}'
+    for method in ('get_master_identifier', 'get_all_instances_info', 'get_conflicts', 'get_strategies',
+                   'get_statistics_status'):
+        try:
+            snap[method] = peek(w, nick, 'supvisors.' + method)
+        except Fault as exc:
+            snap[method] = f'fault {exc.code}'
+    for identifier in sorted(inst.supvisors.mapper.instances):
+        for method in ('get_all_inner_process_info', 'get_network_info'):
+            try:
+                snap[f'{method}/{identifier}'] = peek(w, nick, 'supvisors.' + method, identifier)
+            except Fault as exc:
+                snap[f'{method}/{identifier}'] = f'fault {exc.code}'
+    for app in snap['get_all_applications_info'] if isinstance(snap['get_all_applications_info'], list) else ():
+        name = app['application_name']
+        try:
+            snap[f'get_application_rules/{name}'] = peek(w, nick, 'supvisors.get_application_rules', name)
+        except Fault as exc:
+            snap[f'get_application_rules/{name}'] = f'fault {exc.code}'
+    return snap
+
+
+def snapshot_diff(before, after, limit=4):
+    """ Short description of the differences between two snapshots. """
+    out = []
+    for key in sorted(set(before) | set(after)):
+        a, b = before.get(key), after.get(key)
+        if a == b:
+            continue
+        if isinstance(a, list) and isinstance(b, list) and len(a) == len(b):
+            for x, y in zip(a, b):
+                if x != y:
+                    if isinstance(x, dict) and isinstance(y, dict):
+                        fields = {k: (x.get(k), y.get(k)) for k in set(x) | set(y) if x.get(k) != y.get(k)}
+                        ident = x.get('identifier') or x.get('process_name') or x.get('name') or x.get('application_name')
+                        out.append(f'{key}[{ident}]: {fields}')
+                    else:
+                        out.append(f'{key}: {x!r} -> {y!r}')
+        elif isinstance(a, dict) and isinstance(b, dict):
+            out.append(f'{key}: ' + str({k: (a.get(k), b.get(k)) for k in set(a) | set(b) if a.get(k) != b.get(k)}))
+        else:
+            out.append(f'{key}: {str(a)[:120]} -> {str(b)[:120]}')
+    return out[:limit]
